@@ -72,6 +72,8 @@ fn main() {
     match mode.as_str() {
         "resp" => {
             let stack: usize = arg_after(&args, "--stack").and_then(|s| s.parse().ok()).unwrap_or(2 * 1024 * 1024);
+            // a request that does not return (an endless loop in the parser or the connection) is answered `hang`
+            start_watchdog(arg_after(&args, "--hang-ms").and_then(|s| s.parse().ok()).unwrap_or(20000));
             let t = std::thread::Builder::new()
                 .stack_size(stack)
                 .spawn(|| {
